@@ -27,5 +27,91 @@ def fn_units():
     return out
 
 
+def roundtrip_units():
+    """spec-level lemma over two verified contracts: exception entry (spec/exceptions.py, proved equal to the code in
+    C11) followed by the standard return instruction of that exception (SUBS PC, LR, #imm: spec/ops_sys.py, proved equal
+    to the code by the step units) resumes the interrupted program with CPSR, registers and PC intact."""
+    from pyvc.unit import Unit, values_eq
+    from pyvc import sym
+    from pyvc.sym import lor, ite
+    from spec import exceptions as EXC
+    from spec import ops_sys as SYS
+    from spec.cpu import Cpu
+    from spec.rt import bit
+    from . import machine as MC
+    SUFFIX = {ST.SVC: 'svc', ST.UND: 'und', ST.IRQ: 'irq', ST.FIQ: 'fiq', ST.ABT: 'abt'}
+    KINDS = {
+        # kind: (entry transformer, handler mode, return offset, resumed PC relative to the interrupted instruction)
+        'svc': (lambda st: EXC.take_svc(st), ST.SVC, 0, 'next'),
+        'undef': (lambda st: EXC.take_undef_instr(st), ST.UND, 0, 'next'),
+        'irq': (lambda st: EXC.take_physical_irq(st), ST.IRQ, 4, 'same'),
+        'fiq': (lambda st: EXC.take_physical_fiq(st), ST.FIQ, 4, 'same'),
+        'dabort': (lambda st: EXC.take_data_abort(st, False, False), ST.ABT, 8, 'same'),
+    }
+    out = []
+    for kind, (entry, hmode, off, resume) in KINDS.items():
+        for src in ('arm', 'thumb'):
+            def symbolic(eng, kind=kind, entry=entry, hmode=hmode, off=off, resume=resume, src=src):
+                tbit = 0 if src == 'arm' else 1
+                fixed = {'cpsr': lambda e, lf: (e.fresh_int('cpsr', 32) & ~((1 << 24) | (1 << 5))) | (tbit << 5)}
+                mach = MC.SymMachine(eng, 'PMSA', 1, fixed=fixed)
+                st0 = dict(mach.init)
+                cfg = mach.configs
+                c0 = st0['cpsr']
+                m0 = bits(c0, 4, 0)
+                eng.assume(lnot(ST.bad_mode(m0, cfg['have_security_ext'], cfg['have_virt_ext'])))
+                eng.assume(land(m0 != ST.HYP, m0 != ST.MON))       # exceptions taken from Hyp/Monitor mode return differently
+                eng.assume(bits(c0, 23, 20) == 0)
+                it0 = ST.cpsr_field(c0, 'it')
+                eng.assume(it0 == 0 if src == 'arm' else implies(bits(it0, 3, 0) == 0, it0 == 0))
+                eng.assume(bits(st0['R.PC'], 1 if src == 'arm' else 0, 0) == 0)
+                # the exception is taken to its own mode (not routed to Monitor or Hyp mode)
+                st1 = dict(st0)
+                entry(st1)
+                eng.assume(bits(st1['cpsr'], 4, 0) == hmode)
+                if not eng.prefix:
+                    eng.cover('an interrupted state exists')
+                # handler returns with SUBS PC, LR, #off in the handler's instruction set (SCTLR.TE)
+                outs = []
+                for hset in ('arm', 'thumb'):
+                    k = Cpu(dict(st1), hset, 0, 32)
+                    if hset == 'arm':
+                        SYS.op_subs_pc_lr_arm(k, 0b0010, 14, off)
+                    else:
+                        SYS.op_subs_pc_lr_thumb(k, 14, off)
+                    outs.append(k)
+                te = bit(st0['sctlr'], 30) == 1
+                ka, kt = outs
+                dc = ite(te, lor(kt.unpred, kt.unknown, kt.undef), lor(ka.unpred, ka.unknown, ka.undef))
+                oplen = 4 if src == 'arm' else None
+                named = []
+                for leaf, v0 in st0.items():
+                    if leaf.startswith('chg[') or leaf.startswith('cfg.') or leaf.startswith('cpu.'):
+                        continue
+                    v2 = ite(te, kt.st[leaf], ka.st[leaf]) if kt.st[leaf] is not ka.st[leaf] else ka.st[leaf]
+                    if leaf == 'R.PC':
+                        continue
+                    if leaf in ('R.LR' + SUFFIX[hmode], 'spsr_' + SUFFIX[hmode]):
+                        continue            # the handler mode's own LR and SPSR are clobbered by the entry
+                    exp = v0
+                    if leaf == 'cpsr' and kind == 'svc':
+                        exp = ST.cpsr_with(c0, it=EXC.it_advance(it0))
+                    named.append((leaf, lor(dc, values_eq(v2, exp))))
+                eng.oblige_all('lemma', '%s from %s state: entry then SUBS PC,LR,#%d restores CPSR and every register but the handler LR/SPSR' % (kind, src, off), named)
+                pc2 = ite(te, kt.st['R.PC'], ka.st['R.PC'])
+                pc0 = st0['R.PC']
+                if resume == 'same':
+                    eng.oblige('lemma', '%s: execution resumes at the interrupted instruction' % kind, lor(dc, values_eq(pc2, pc0)))
+                else:
+                    # SVC is 4 (ARM) or 2 (Thumb T1) bytes long; the undefined instruction resumes after a 4/2-byte instruction
+                    eng.oblige('lemma', '%s: execution resumes at the instruction after the one that raised it' % kind,
+                               lor(dc, values_eq(pc2, (pc0 + (4 if src == 'arm' else 2)) & 0xFFFFFFFF)))
+
+            def nreplay(inputs, ob):
+                return False, 'spec-level lemma (no code involved)'
+            out.append(Unit('C12/lemma:entry-return[%s,%s]' % (kind, src), ['C12'], symbolic, nreplay, {'contracts': {}}, meta={'inductive': True}))
+    return out
+
+
 def units(tier):
-    return fn_units() + step.units(tier)
+    return roundtrip_units() + fn_units() + step.units(tier)
